@@ -665,6 +665,7 @@ def _b_bytes(interp, args, kwargs, state, node):
         return call_method(interp, x, 'encode', list(args[1:]), kwargs,
                            state, node)
     if len(args) == 1:
+        sized_allocation(interp, x, 'bytes(n)', state, node)
         seq = static_sequence(interp, x, state)
         if seq is not None and all(isinstance(i, int) and
                                    not isinstance(i, bool) and
@@ -676,7 +677,18 @@ def _b_bytes(interp, args, kwargs, state, node):
     return Sym('bytes', *[_t(a) for a in args])
 
 
+def sized_allocation(interp, n, what, state, node):
+    """bytearray(n), bytes(n), b'..' * n, [x] * n with a run-time integer
+    n: an allocation whose size is that integer."""
+    if isinstance(n, Sym):
+        t = state.kn.type_of(n)
+        if t is not None and t <= {'int', 'bool'}:
+            interp.effect('alloc-sized', n, (what, state.kn.copy()), node)
+
+
 def _b_bytearray(interp, args, kwargs, state, node):
+    if len(args) == 1:
+        sized_allocation(interp, args[0], 'bytearray(n)', state, node)
     return Sym('bytearray', *[_t(a) for a in args])
 
 
@@ -1203,7 +1215,53 @@ def _b_reversed(interp, args, kwargs, state, node):
 
 
 def _b_super(interp, args, kwargs, state, node):
-    raise _i().Unsupported('super() at ' + interp.site(node))
+    """Zero-argument super() inside a method: a proxy that resolves a
+    method name in the MRO after the class that defines the current
+    function."""
+    fi = interp.cur_func
+    if args or fi is None or fi.owner is None:
+        raise _i().Unsupported('super() with arguments / outside a method '
+                               'at ' + interp.site(node))
+    a = fi.node.args
+    ps = a.posonlyargs + a.args
+    if not ps or ps[0].arg not in state.env:
+        raise _i().Unsupported('super() without a bound first parameter at '
+                               + interp.site(node))
+    return Sym('superobj', fi.owner.qualname, _t(state.env[ps[0].arg]))
+
+
+def call_super_method(interp, sup, name, args, kwargs, state, node):
+    owner = interp.prog.classes.get(sup.args[0])
+    recv = sup.args[1]
+    if isinstance(recv, Ref):
+        start_cls = interp.obj(state, recv).cls
+    elif isinstance(recv, ClassInfo):
+        start_cls = recv
+    else:
+        raise _i().Unsupported('super() on %r' % (recv,))
+    mro = interp.prog.mro(start_cls)
+    after = False
+    for c in mro:
+        if c is owner:
+            after = True
+            continue
+        if not after or not isinstance(c, ClassInfo):
+            continue
+        m = c.bindings.get(name)
+        if m:
+            target = interp.prog.find_method(c, name)
+            if target is not None:
+                return interp.call_function(target, [recv] + list(args),
+                                            kwargs, state, node)
+    # nothing in the package: object's (or a library base's) version
+    if name in ('__init__', '__init_subclass__', '__setattr__',
+                '__delattr__', '__set_name__'):
+        if name == '__setattr__' and len(args) == 2 and \
+                isinstance(recv, Ref):
+            return _object_setattr(interp, [recv] + list(args), {}, state,
+                                   node)
+        return None
+    raise _i().Unsupported('super().%s at %s' % (name, interp.site(node)))
 
 
 def _b_iter(interp, args, kwargs, state, node):
@@ -1547,6 +1605,9 @@ def call_method(interp, recv, name, args, kwargs, state, node):
                 raise _i()._NoReturn()
         return Sym('method', recv, name, tuple(_t(a) for a in args))
     # symbolic receiver
+    if recv.op == 'superobj':
+        return call_super_method(interp, recv, name, args, kwargs, state,
+                                 node)
     if recv.op == 'logger':
         if name in ('isEnabledFor', 'getEffectiveLevel', 'hasHandlers',
                     'getChild'):
@@ -2068,6 +2129,13 @@ def binop(interp, op, a, b, state, node):
                                  'unsupported operand type(s) for -')
         return T.sub(a, b)
     if name == 'mul':
+        for x_, y_ in ((a, b), (b, a)):
+            tx = state.kn.type_of(x_) if isinstance(x_, Sym) else (
+                {'bytes'} if isinstance(x_, (bytes, str)) else
+                {'list'} if isinstance(x_, (tuple, Ref)) else None)
+            if tx is not None and tx & {'bytes', 'bytearray', 'str', 'list',
+                                        'tuple'}:
+                sized_allocation(interp, y_, 'sequence * n', state, node)
         if not known_int:
             interp.raise_pending(state, E('builtins.TypeError'), node,
                                  'unsupported operand type(s) for *')
